@@ -56,6 +56,14 @@ def schedule_case(draw):
         h = draw(gen.e2e_config(front=("single", "joint"), max_N=3, max_W=4, max_K=4, t_range=(30, 50), limits=(1, 2),
                                 betas=(1.0, 10.0), lam_forms=("scalar", "const_matrix")))
         hist.append(h)
+    # earlier calls that look almost like the call under test: same data with another sparsity weight / switching cost, and
+    # other data of the same shape from the same RNG seeds (module-level memo tables keyed too coarsely show here)
+    base = {k: v for k, v in cfg.items()}
+    kind = draw(st.sampled_from(["none", "same_data_other_lambda", "same_shape_other_data", "both"]))
+    if kind in ("same_data_other_lambda", "both"):
+        hist.append(dict(base, lam=0.5 if base["lam"] != 0.5 else 0.01, lam_form="scalar", beta=base["beta"] + 1.0))
+    if kind in ("same_shape_other_data", "both"):
+        hist.append(dict(base, data_seed=(base["data_seed"] + 1) % (2 ** 31), sensor_scales=[3.0] * base["N"]))
     cfg["variants"] = variants
     cfg["history"] = hist
     cfg["check_hashseed"] = True
@@ -238,7 +246,7 @@ def _plain_run_mp_off(cfg, timeout):
 
 SUBCHECKS = [
     SubCheck(name="schedules_histories_hashseeds", strategy=schedule_case, execute=execute,
-             budget={"quick": 64, "thorough": 2400}, shards={"quick": 16, "thorough": 16},
+             budget={"quick": 48, "thorough": 2400}, shards={"quick": 16, "thorough": 16},
              modes={"quick": ["nojit"], "thorough": ["nojit", "jit"]}, min_nontrivial_fraction=0.3,
              shrink={"quick": False, "thorough": True}),
 ]
